@@ -21,23 +21,120 @@ import (
 
 	"github.com/miekg/dns"
 	"github.com/semihalev/sdns/config"
-	"github.com/semihalev/sdns/internal/mock"
 	"github.com/semihalev/sdns/middleware"
 )
 
-type vWriter struct {
-	*mock.Writer
-	ip       net.IP
-	internal bool
+// a transport without an Internal() method, reporting an arbitrary remote address
+type vC17Tr struct {
+	addr net.Addr
+	msg  *dns.Msg
 }
 
-func (w *vWriter) RemoteIP() net.IP       { return w.ip }
-func (w *vWriter) RemoteAddr() net.Addr { return &net.UDPAddr{IP: w.ip, Port: 5353} }
-func (w *vWriter) Internal() bool   { return w.internal }
+func (t *vC17Tr) LocalAddr() net.Addr         { return &net.UDPAddr{IP: net.IPv4(127, 0, 0, 1), Port: 53} }
+func (t *vC17Tr) RemoteAddr() net.Addr        { return t.addr }
+func (t *vC17Tr) WriteMsg(m *dns.Msg) error   { t.msg = m; return nil }
+func (t *vC17Tr) Write(b []byte) (int, error) { t.msg = new(dns.Msg); return len(b), t.msg.Unpack(b) }
+func (t *vC17Tr) Close() error                { return nil }
+func (t *vC17Tr) vC17Written() bool           { return t.msg != nil }
+func (t *vC17Tr) vC17Msg() *dns.Msg           { return t.msg }
+
+// ... and one with it
+type vC17TrSays struct {
+	vC17Tr
+	says bool
+}
+
+func (t *vC17TrSays) Internal() bool { return t.says }
+
+func vC17CoqIP(ip net.IP) string {
+	switch len(ip) {
+	case 4:
+		return fmt.Sprintf("(Some (mk_addr true %s))", new(big.Int).SetBytes(ip).String())
+	case 16:
+		return fmt.Sprintf("(Some (mk_addr false %s))", new(big.Int).SetBytes(ip).String())
+	}
+	return "None"
+}
+
+type vC17Sink interface {
+	vC17Written() bool
+	vC17Msg() *dns.Msg
+}
+
+// one corpus entry: a fixed remote (see corpus/C17/*.json)
+type vC17Fixed struct {
+	Src    string `json:"src"`       // address literal
+	Form   int    `json:"ip_bytes"`  // 4 or 16 (an IPv4 address in 16-byte IPv4-mapped form)
+	Kind   string `json:"addr_type"` // udp | tcp | ipaddr | nil
+	Port   int    `json:"port"`
+	Method string `json:"internal_method"` // none | false | true
+}
+
+func (e vC17Fixed) vC17Make() (middleware.Transport, vC17Sink, string, map[string]any) {
+	a := netip.MustParseAddr(e.Src)
+	ip := net.IP(a.AsSlice())
+	if e.Form == 16 && a.Is4() {
+		b := a.As16()
+		ip = net.IP(b[:])
+	}
+	kind := map[string]int{"udp": 0, "tcp": 1, "ipaddr": 2, "nil": 3}[e.Kind]
+	says := map[string]int{"none": 0, "": 0, "false": 1, "true": 2}[e.Method]
+	return vC17MkRemote(ip, kind, e.Port, says)
+}
+
+// vC17Remote builds a transport for a peer with this IP: the remote-address type, the port and the
+// Internal() method vary; sentinel = offer the sub-query signature's neighbourhood (port 0, any method).
+// Returns the transport, the model's [remote] term and a description.
+func vC17Remote(r *rand.Rand, ip net.IP, sentinel bool) (middleware.Transport, vC17Sink, string, map[string]any) {
+	kind := r.Intn(2)
+	port := []int{4242, 1, 53, 65535, 1024 + r.Intn(60000)}[r.Intn(5)]
+	says := r.Intn(2) // none / false
+	if sentinel {
+		port = []int{0, 0, 4242, 1, 65535}[r.Intn(5)]
+		says = r.Intn(3)
+		if r.Intn(6) == 0 {
+			kind = 2
+		}
+	} else {
+		switch r.Intn(16) {
+		case 0:
+			says = 2 // a transport that declares the request internal
+		case 1:
+			kind = 2 + r.Intn(2) // a foreign address type: no usable peer address
+		case 2:
+			port = 0
+		}
+	}
+	return vC17MkRemote(ip, kind, port, says)
+}
+
+// vC17MkRemote: kind 0 = *net.UDPAddr, 1 = *net.TCPAddr, 2 = *net.IPAddr, 3 = nil address; says 0 = the
+// transport has no Internal() method, 1 = it says false, 2 = it says true.
+func vC17MkRemote(ip net.IP, kind, port, says int) (middleware.Transport, vC17Sink, string, map[string]any) {
+	var addr net.Addr
+	kindCoq, ipCoq, kindName := "KOther", "None", "nil"
+	switch kind {
+	case 0:
+		addr, kindCoq, ipCoq, kindName = &net.UDPAddr{IP: ip, Port: port}, "KUdp", vC17CoqIP(ip), "*net.UDPAddr"
+	case 1:
+		addr, kindCoq, ipCoq, kindName = &net.TCPAddr{IP: ip, Port: port}, "KTcp", vC17CoqIP(ip), "*net.TCPAddr"
+	case 2:
+		addr, ipCoq, kindName = &net.IPAddr{IP: ip}, vC17CoqIP(ip), "*net.IPAddr"
+	}
+	saysCoq := []string{"None", "(Some false)", "(Some true)"}[says]
+	coq := fmt.Sprintf("(mk_remote %s %s %d %s)", kindCoq, ipCoq, port, saysCoq)
+	desc := map[string]any{"remote_addr_type": kindName, "ip": fmt.Sprint(ip), "ip_bytes": len(ip), "port": port, "transport_internal_method": saysCoq}
+	if says == 0 {
+		t := &vC17Tr{addr: addr}
+		return t, t, coq, desc
+	}
+	t := &vC17TrSays{vC17Tr{addr: addr}, says == 2}
+	return t, t, coq, desc
+}
 
 type vStub struct{ calls int }
 
-func (s *vStub) Name() string                                        { return "verifstub" }
+func (s *vStub) Name() string                                       { return "verifstub" }
 func (s *vStub) ServeDNS(ctx context.Context, ch *middleware.Chain) { s.calls++ }
 
 func vEnvInt(name string, def int) int {
@@ -85,27 +182,33 @@ func TestVerifC17Views(t *testing.T) {
 	defer f.Close()
 	r := rand.New(rand.NewSource(int64(vEnvInt("VERIF_SEED", 1)) + 29))
 	n := vEnvInt("VERIF_N", 300)
-	for c := 0; c < n; c++ {
-		nv := 1 + r.Intn(4)
+	// corpus first (corpus/C17/views.json): minimal failing inputs of the seeded changes this driver caught
+	var corpus []struct {
+		From  string `json:"from"`
+		Views []struct {
+			Networks []string `json:"networks"`
+			Has      bool     `json:"has_answer"`
+		} `json:"views"`
+		vC17Fixed
+	}
+	if dir := os.Getenv("VERIF_CORPUS"); dir != "" {
+		if raw, err := os.ReadFile(dir + "/views.json"); err == nil {
+			if err := json.Unmarshal(raw, &corpus); err != nil {
+				t.Fatalf("corpus views.json: %v", err)
+			}
+		}
+	}
+	for c := -len(corpus); c < n; c++ {
+		fixed := c < 0
+		nv := 0
+		if !fixed {
+			nv = 1 + r.Intn(4)
+		}
 		cfg := &config.Config{}
 		var vcoq []string
 		var all []netip.Prefix
 		var desc []any
-		for i := 0; i < nv; i++ {
-			var nets []string
-			var pc []string
-			for j := 0; j < 1+r.Intn(3); j++ {
-				var pf netip.Prefix
-				if len(all) > 0 && r.Intn(3) == 0 {
-					pf = all[r.Intn(len(all))] // overlap with an earlier view
-				} else {
-					pf = vRandPrefix(r)
-				}
-				all = append(all, pf)
-				nets = append(nets, pf.String())
-				pc = append(pc, fmt.Sprintf("mk_prefix %v %s %d", pf.Addr().Is4(), vAddrBig(pf.Addr()).String(), pf.Bits()))
-			}
-			has := r.Intn(4) != 0
+		addView := func(i int, nets []string, pc []string, has bool) {
 			vc := config.ViewConfig{Zone: fmt.Sprintf("v%d", i), Networks: nets}
 			if has {
 				vc.Answers = []string{fmt.Sprintf("host.example. 60 IN A 192.0.2.%d", i)}
@@ -116,37 +219,79 @@ func TestVerifC17Views(t *testing.T) {
 			vcoq = append(vcoq, fmt.Sprintf("([%s], %v)", strings.Join(pc, "; "), has))
 			desc = append(desc, map[string]any{"networks": nets, "has_answer": has})
 		}
+		if fixed {
+			for i, fv := range corpus[c+len(corpus)].Views {
+				var pc []string
+				for _, e := range fv.Networks {
+					pf := netip.MustParsePrefix(e)
+					all = append(all, pf)
+					pc = append(pc, fmt.Sprintf("mk_prefix %v %s %d", pf.Addr().Is4(), vAddrBig(pf.Addr()).String(), pf.Bits()))
+				}
+				addView(i, fv.Networks, pc, fv.Has)
+			}
+		}
+		for i := 0; i < nv; i++ {
+			var nets []string
+			var pc []string
+			for j := 0; j < 1+r.Intn(3); j++ {
+				var pf netip.Prefix
+				if len(all) > 0 && r.Intn(3) == 0 {
+					pf = all[r.Intn(len(all))] // overlap with an earlier view
+				} else {
+					pf = vRandPrefix(r)
+					if r.Intn(4) == 0 { // views over (part of) the loopback block: the sentinel's neighbourhood is answered too
+						pf = netip.MustParsePrefix([]string{"127.0.0.0/8", "127.0.0.255/32", "127.0.0.254/31", "127.0.0.0/24"}[r.Intn(4)])
+					}
+				}
+				all = append(all, pf)
+				nets = append(nets, pf.String())
+				pc = append(pc, fmt.Sprintf("mk_prefix %v %s %d", pf.Addr().Is4(), vAddrBig(pf.Addr()).String(), pf.Bits()))
+			}
+			addView(i, nets, pc, r.Intn(4) != 0)
+		}
 		v := New(cfg)
-		pf := all[r.Intn(len(all))]
-		var src netip.Addr
-		switch r.Intn(4) {
-		case 0:
-			src = vRandPrefix(r).Addr()
-		case 1:
-			src = pf.Masked().Addr()
-		default:
-			src = pf.Addr()
+		var w middleware.Transport
+		var wr vC17Sink
+		var remoteCoq string
+		var rdesc map[string]any
+		sentinel := false
+		if fixed {
+			w, wr, remoteCoq, rdesc = corpus[c+len(corpus)].vC17Make()
+		} else {
+			pf := all[r.Intn(len(all))]
+			var src netip.Addr
+			switch r.Intn(4) {
+			case 0:
+				src = vRandPrefix(r).Addr()
+			case 1:
+				src = pf.Masked().Addr()
+			default:
+				src = pf.Addr()
+			}
+			// one case in six: the neighbourhood of the sub-query signature (127.0.0.255, port 0) on every address type
+			sentinel = r.Intn(6) == 0
+			if sentinel {
+				src = netip.MustParseAddr([]string{"127.0.0.255", "127.0.0.255", "127.0.0.254", "127.0.1.0"}[r.Intn(4)])
+			}
+			ip := net.IP(src.AsSlice())
+			if src.Is4() && r.Intn(2) == 0 {
+				b := src.As16()
+				ip = net.IP(b[:])
+			}
+			w, wr, remoteCoq, rdesc = vC17Remote(r, ip, sentinel)
 		}
-		ip := net.IP(src.AsSlice())
-		srcCoq := fmt.Sprintf("(mk_addr %v %s)", src.Is4(), vAddrBig(src).String())
-		if src.Is4() && r.Intn(2) == 0 {
-			b := src.As16()
-			ip = net.IP(b[:])
-			srcCoq = fmt.Sprintf("(mk_addr false %s)", new(big.Int).SetBytes(b[:]).String())
-		}
-		internal := r.Intn(10) == 0
 		stub := &vStub{}
 		ch := middleware.NewChain([]middleware.Handler{v, stub})
-		w := &vWriter{Writer: mock.NewWriter("udp", "192.0.2.1:53"), ip: ip, internal: internal}
 		req := new(dns.Msg)
 		req.SetQuestion("host.example.", dns.TypeA)
 		ch.Reset(w, req)
+		internal := ch.Writer.Internal()
 		ch.Next(context.Background())
 		answered := "None"
 		k := "view-fallthrough"
 		goFail := ""
-		if w.Written() {
-			m := w.Msg()
+		if wr.vC17Written() {
+			m := wr.vC17Msg()
 			if m == nil || len(m.Answer) != 1 {
 				goFail = "view reply without exactly one answer"
 			} else if a, ok := m.Answer[0].(*dns.A); ok {
@@ -159,12 +304,21 @@ func TestVerifC17Views(t *testing.T) {
 		} else if stub.calls != 1 {
 			goFail = fmt.Sprintf("no reply and next handler called %d times", stub.calls)
 		}
+		if sentinel {
+			k += "-sentinel-sweep"
+		}
+		if fixed {
+			k += "-corpus"
+		}
+		if internal {
+			k += "-internal"
+		}
 		b, _ := json.Marshal(map[string]any{
 			"k":          k,
-			"coq":        fmt.Sprintf("CaseView [%s] %v %s %s", strings.Join(vcoq, "; "), internal, srcCoq, answered),
+			"coq":        fmt.Sprintf("CaseView [%s] %s %s", strings.Join(vcoq, "; "), remoteCoq, answered),
 			"go_fail":    goFail,
 			"nontrivial": true,
-			"desc":       map[string]any{"views": desc, "src": ip.String(), "internal": internal, "answered": answered},
+			"desc":       map[string]any{"views": desc, "remote": rdesc, "writer_internal": internal, "answered": answered},
 		})
 		f.Write(append(b, '\n'))
 	}
